@@ -71,6 +71,8 @@ public:
     // and even finish, before the creator executes its next plain statement. Off for scripted replays (the I-level
     // models have no such step), on for random exploration.
     virtual bool yield_after_create() { return false; }
+    // Failure injection: this pthread_create call fails with EAGAIN (the limit on threads was reached). No thread is created.
+    virtual bool fail_create() { return false; }
 };
 
 // Runs `body` as managed thread 0 under `ctl`. Returns 0 when every managed thread finished.
